@@ -28,3 +28,10 @@ package routes
 //@ ensures gate: implies(evcount(wroteFile) > old(evcount(wroteFile)), evcount(formattedCode) > old(evcount(formattedCode)) && evlast(formattedCode, 0))
 //@ ensures path: implies(evcount(wroteFile) > old(evcount(wroteFile)), evlast(wroteFile, 0) == old(config.RoutesConfig.OutputPath))
 //@ ensures ok: implies(result == nil, evcount(wroteFile) == old(evcount(wroteFile))+1)
+
+// Engine -> template selection: every engine constant selects its own embedded template (C20, and the only
+// engine-dependent Go decision behind C12).
+//@ spec knownEngine(e definitions.RoutingEngineType) bool = e == definitions.RoutingEngineGin || e == definitions.RoutingEngineEcho || e == definitions.RoutingEngineMux || e == definitions.RoutingEngineFiber || e == definitions.RoutingEngineChi
+//@ func getDefaultTemplate props C20,C14
+//@ requires knownEngine(engine)
+//@ ensures implies(engine == definitions.RoutingEngineGin, result == gin.RoutesTemplate) && implies(engine == definitions.RoutingEngineEcho, result == echo.RoutesTemplate) && implies(engine == definitions.RoutingEngineMux, result == mux.RoutesTemplate) && implies(engine == definitions.RoutingEngineFiber, result == fiber.RoutesTemplate) && implies(engine == definitions.RoutingEngineChi, result == chi.RoutesTemplate)
